@@ -165,6 +165,7 @@ class Engine:
         self.R = {}             # key -> Shape
         self.consulted = False  # did a check read the rule-base results (runs / latent layer)?
         self.incomplete = []    # idioms outside the analysed subset met while building them
+        self.partial = []       # runs cut short (paths missing, none spurious)
         self._runs = {}         # (rule name, index, shape keys) -> RuleRun
         self.fired = {}         # rule name -> number of non-None results
         self.feed = {}          # (producer rule, consumer rule)
@@ -604,9 +605,17 @@ def get_engine(ctx):
             seen.append("{} {}: {}".format(ent[0], ent[1], ent[2]))
         for err in e.errors:
             seen.append("engine: " + str(err))
+        partial = []
         for run in e._runs.values():
             if run.error:
-                seen.append("{}: {}".format(run.rule.name, run.error))
+                # a run that was cut short (path limit): paths and shapes are missing, none is wrong
+                if "path limit" in str(run.error):
+                    msg = "{}: {}".format(run.rule.name, run.error)
+                    if msg not in partial:
+                        partial.append(msg)
+                else:
+                    seen.append("{}: {}".format(run.rule.name, run.error))
+        e.partial = partial
         for key, (_sh, _paths, err) in e._latent.items():
             if err:
                 seen.append("latent layer {}: {}".format(key, err))
